@@ -19,10 +19,15 @@ from ..tlc import run_tlc
 LEVEL = "translation_validation"
 
 
-def observe(dec, d, raw_def, payload):
+def observe(dec, d, raw_def, payload, used=False):
     s = corpus.basic_string(d["pgn"], payload)
     try:
         msg = dec.decode_basic_string(s, already_combined=True)
+        if used and msg is not None:           # what an application does with a message before it looks at it again
+            msg.to_json()
+            str(msg)
+            for f_ in msg.fields:
+                msg.get_field_by_id(f_.id)
     except Exception as e:                     # noqa: BLE001 - any failure is an observation
         return {"pgn": d["pgn"], "p": list(payload), "ret": "err", "hdr": {"pgn": 0, "id": "", "desc": "", "ttl": -1},
                 "f": [], "err": f"{type(e).__name__}: {e}"[:160]}
@@ -32,10 +37,13 @@ def observe(dec, d, raw_def, payload):
     return None, msg
 
 
-def record(db, raw, tier: str, seed: int):
+def record(db, raw, tier: str, seed: int, wd=None):
     from nmea2000.decoder import NMEA2000Decoder
     rng = random.Random(seed)
     dec = NMEA2000Decoder()
+    wd_ = wd if wd is not None else workdir("C01")
+    dump_all = NMEA2000Decoder(dump_to_file=str(wd_ / "dump-all.jsonl"))
+    dump_other = NMEA2000Decoder(dump_to_file=str(wd_ / "dump-other.jsonl"), dump_pgns=[59904, "isoAcknowledgement"])
     by_id = {d["id"]: d for d in db["defs"]}
     raw_by_id = {p["Id"]: p for p in raw["PGNs"]}
     n_random = {"quick": 6, "thorough": 120, "selftest": 2}[tier]
@@ -57,6 +65,19 @@ def record(db, raw, tier: str, seed: int):
                 o.update(project.pmsg(msg, dd, raw_by_id.get(msg.id)))
             recs.append(o)
             meta.append((d["id"], tag))
+            # the other ways a message is obtained: from a decoder that also writes a dump file (all messages / a filter that
+            # names another PGN), and looked at again after it has been serialised and queried once
+            if tag == "again":
+                for vtag, vdec, used in (("dump", dump_all, False), ("dump-other", dump_other, False), ("used", dec, True)):
+                    o = observe(vdec, d, raw_by_id[d["id"]], payload, used)
+                    if isinstance(o, tuple):
+                        msg = o[1]
+                        o = {"pgn": d["pgn"], "p": list(payload), "ret": "msg", "err": ""}
+                        o.update(project.pmsg(msg, by_id.get(msg.id), raw_by_id.get(msg.id)))
+                    recs.append(o)
+                    meta.append((d["id"], f"again/{vtag}"))
+    dump_all.close()
+    dump_other.close()
     # every key of every lookup / bit-lookup table once (the tables are part of the translated database)
     n_tab = 0
     for d, tag, payload in corpus.table_sweep(db, lambda d: d["decodable"]):
@@ -101,7 +122,7 @@ def key_of(db, rec, meta, v) -> str:
 def bind(chk: Check, tier: str, seed: int):
     wd = workdir("C01")
     db, raw = load_db(wd)
-    recs, meta = record(db, raw, tier, seed)
+    recs, meta = record(db, raw, tier, seed, wd)
     bad = validate("C01", recs, wd)
     returned = sum(1 for r in recs if r["ret"] == "msg")
     progs = {r["hdr"]["id"] for r in recs if r["ret"] == "msg"}
